@@ -27,8 +27,9 @@ SPEC = dict(
                 "needs an extra trait bound (Default or a type-level `is trivial`), so it is recorded, not patched; witness proved as "
                 "degenerate_isTop_refuted, oracle signature c03-istop-degenerate. "
                 "Translation: the match-arm tables of WithBot/WithTop (merge, partial_cmp, eq; lattice_from/is_bot/is_top bodies), Conflict (partial_cmp, eq) and the IsTop/IsBot/Default impls of Max/Min in ord.rs (incl. the list of types impls_numeric! is instantiated with) are re-extracted from lattices/src on every run into Gen/Tables.lean as Lean functions; gen_* theorems prove them equal to the hand-written model, so a changed/added/reordered arm breaks the check even without a failing input. "
-                "PARTIAL: Point's "
-                "panicking partial_cmp is modelled and diffed only; union-find/tombstones are C04/C05."),
+                "PARTIAL: Point (no theorem in C03): "
+                "its partial_cmp / == are a two-line model, diffed on all pairs over {0,1,2}, and the oracle checks on the real code that two points "
+                "are comparable (no panic) exactly when equal and then Equal; union-find/tombstones are C04/C05."),
     level_note=("Trusted as C01. is_top-iff-greatest for SetUnion/MapUnion/VecUnion uses that the element/key type is unbounded in the "
                 "model (u32 in the harness); a set/map over a finite element/key type (e.g. SetUnion<HashSet<bool>>) has a greatest element for which is_top() is false - the crate's "
                 "is_top for collections is a constant false; not instantiated by the harness (same family as F11, not recorded separately)."),
